@@ -185,8 +185,14 @@ func newC15WorldUnbound(m *vk.M, idx int, r *rand.Rand, svcs []string, eps []str
 func (w *c15World) endpoints() []string { return append([]string(nil), w.eps...) }
 
 func (w *c15World) dispose() {
-	if !w.wedged {
-		internal.C15Dispose(w.eps)
+	if w.wedged {
+		return
+	}
+	if !vk.Within(c15Watchdog, func() { internal.C15Dispose(w.eps) }) {
+		// clean-up only: the watch goroutines did not stop; later scenarios of this process
+		// could not observe quiescence
+		c15Wedged.Store(true)
+		w.m.Note("case %d: the cluster's watch goroutines did not stop at clean-up", w.idx)
 	}
 }
 
@@ -253,9 +259,20 @@ func (w *c15World) newSubscriber(svc string, excl bool) (*discov.Subscriber, boo
 	}
 	var sub *discov.Subscriber
 	var err error
+	g0, f0, _, _ := w.etcd.counters()
+	d0 := w.etcd.deadGets()
 	if !vk.Within(c15Watchdog, func() { sub, err = discov.NewSubscriber(w.endpoints(), svc, opts...) }) {
 		w.wedged = true
 		c15Wedged.Store(true)
+		if dead := w.etcd.deadGets() - d0; dead >= 3 {
+			w.violate("C15:attach:hang:dead-context-gets", "NewSubscriber(%q) did not return within %v; the model etcd is healthy, but %d snapshot Gets arrived with an already expired context", svc, c15Watchdog, dead)
+			return nil, false
+		}
+		g1, f1, _, _ := w.etcd.counters()
+		if answered := (g1 - g0) - (f1 - f0); answered >= 3 {
+			w.violate("C15:attach:hang:snapshot-not-accepted", "NewSubscriber(%q) did not return within %v although the model etcd answered %d snapshot Gets successfully meanwhile: the subscriber can never join", svc, c15Watchdog, answered)
+			return nil, false
+		}
 		if st := c15LockStuck("discov.NewSubscriber"); st != "" {
 			w.violate("C15:attach:hang:cluster-lock", "NewSubscriber(%q) did not return within %v: its goroutine is parked on a lock of the registry that nobody is going to release:\n%s", svc, c15Watchdog, c15Trim(st, 1800))
 		} else {
@@ -391,10 +408,53 @@ func (w *c15World) quiesce() bool {
 		min = 1
 	}
 	if !vk.WaitUntil(c15Watchdog, func() bool { return c15WatchersIdle(min) }) {
+		w.wedged = true
+		c15Wedged.Store(true)
+		if st := c15AllStuckOnMutex(); st != "" {
+			w.violate("C15:watch:hang:cluster-lock", "watch goroutines did not return to their loop within %v: every goroutine of the package that is not waiting for events is parked on a mutex nobody is going to release (the harness holds none and no listener is held back); what was delivered can never be processed:\n%s", c15Watchdog, c15Trim(st, 1800))
+			return false
+		}
 		w.inconclusive("watch goroutines did not return to their loop within %v", c15Watchdog)
 		return false
 	}
 	return true
+}
+
+// c15PkgGoroutines: goroutines inside the package (or spawned for it), without
+// the connection-state watcher.
+func c15PkgGoroutines() []c15G {
+	var out []c15G
+	for _, g := range c15Goroutines() {
+		if (strings.Contains(g.text, c15Pkg) || strings.Contains(g.text, c15RunFn)) && !strings.Contains(g.text, c15StateWatchFn) {
+			out = append(out, g)
+		}
+	}
+	return out
+}
+
+func c15IsIdle(g c15G) bool {
+	return (g.state == "select" || g.state == "chan receive") && strings.HasPrefix(g.top, c15Pkg)
+}
+
+func c15OnMutex(g c15G) bool {
+	return strings.Contains(g.text, "sync.(*Mutex).Lock") || strings.Contains(g.text, "sync.(*RWMutex).")
+}
+
+// c15AllStuckOnMutex: at least one package goroutine is not idle, all non-idle
+// ones are parked on a mutex, and none of them is inside a harness callback
+// (gate). Returns the stack of one of them, or "".
+func c15AllStuckOnMutex() string {
+	st := ""
+	for _, g := range c15PkgGoroutines() {
+		if c15IsIdle(g) {
+			continue
+		}
+		if !c15OnMutex(g) || strings.Contains(g.text, "internal_test.(*c15Sub).listener") {
+			return ""
+		}
+		st = g.text
+	}
+	return st
 }
 
 // progress makes every live watcher take an etcd progress notification (a
@@ -425,6 +485,8 @@ func (w *c15World) waitWatches(n int, what string) bool {
 }
 
 func (w *c15World) waitWatchCalls(n int, what string) bool {
+	g0, f0, _, _ := w.etcd.counters()
+	d0 := w.etcd.deadGets()
 	idleRuns := 0
 	ok := vk.WaitUntil(c15Watchdog, func() bool {
 		if w.etcd.watchCount() >= n {
@@ -444,6 +506,25 @@ func (w *c15World) waitWatchCalls(n int, what string) bool {
 		w.m.Note("case %d: %s: expected %d Watch calls, saw %d; all watch goroutines parked - continuing with the existing watchers", w.idx, what, n, w.etcd.watchCount())
 		w.m.Count("fewer_watches_than_listened_keys", 1)
 		return true
+	}
+	if dead := w.etcd.deadGets() - d0; dead >= 3 {
+		w.wedged = true
+		c15Wedged.Store(true)
+		w.violate("C15:reload:hang:dead-context-gets", "%s: no Watch call within %v; the model etcd is healthy, but since then %d snapshot Gets arrived with a context that had already expired when they were issued: the load can never succeed, the key is never watched again and missed changes stay invisible", what, c15Watchdog, dead)
+		return false
+	}
+	g1, f1, _, _ := w.etcd.counters()
+	inLoad := false
+	for _, g := range c15PkgGoroutines() {
+		if strings.Contains(g.text, "(*cluster).load") {
+			inLoad = true
+		}
+	}
+	if answered := (g1 - g0) - (f1 - f0); answered >= 3 && inLoad {
+		w.wedged = true
+		c15Wedged.Store(true)
+		w.violate("C15:reload:hang:snapshot-not-accepted", "%s: no Watch call within %v; a goroutine is still in cluster.load although the model etcd answered %d further snapshot Gets successfully: the key is never watched again", what, c15Watchdog, answered)
+		return false
 	}
 	w.inconclusive("%s: expected %d Watch calls, saw %d within %v", what, n, w.etcd.watchCount(), c15Watchdog)
 	return false
@@ -522,12 +603,23 @@ func (w *c15World) afterReload(nb, expected int, phase string) {
 	w.check(phase)
 }
 
+// reloadNow runs cluster.reload under the watchdog. It is only called with every
+// watch goroutine parked in its loop, so nothing can legitimately hold it up.
+func (w *c15World) reloadNow(what string) (exists, ok bool) {
+	if !vk.Within(c15Watchdog, func() { exists = internal.C15Reload(w.eps, w.etcd) }) {
+		w.reloadBlocked(what)
+		return false, false
+	}
+	return exists, true
+}
+
 func (w *c15World) reload() {
 	w.ops = append(w.ops, c15Op{Op: "reload"})
 	nb := w.etcd.watchCount()
 	expected := internal.C15ListenedKeys(w.eps)
-	if !internal.C15Reload(w.eps, w.etcd) {
-		return // no cluster yet: nothing to reload
+	exists, ok := w.reloadNow("reload")
+	if !ok || !exists {
+		return // hung (reported), or no cluster yet: nothing to reload
 	}
 	w.afterReload(nb, expected, "after-reload")
 }
@@ -778,7 +870,7 @@ func (w *c15World) state(name string) {
 	select {
 	case <-w.reloaded:
 	case <-time.After(c15Watchdog):
-		w.inconclusive("reload started by the state watcher did not return within %v", c15Watchdog)
+		w.reloadBlocked("reload started by the state watcher")
 		return
 	}
 	w.afterReload(nb, expected, "after-reconnect")
